@@ -43,6 +43,15 @@ CHECKS = {
   technique="crash/hang monitor: hostile-argument workload over the whole exported API in child processes (plain, -race/checkptr, -asan), recover() per call, call log written before each call, derivation cut-off hook",
   text="Every exported function and method (listed at run time from /repo with go/parser; Must* helpers excluded by the property) is called with hostile values from the property's domain sketch; a recovered panic, a process-fatal error attributed through the pre-call log, or unbounded work (hook cut-off / allocation-corroborated hang) is a violation. A wall-clock watchdog firing alone is inconclusive.",
   design="7/C10"),
+ "C11": dict(
+  technique="Go race detector + differential against the sequential reference under stress: per-configuration -race child processes, yield injection between pool Get and Put (HMAC-constructor hook), adversarial pool user, GC storms, retained-string re-check",
+  text="Each configuration (1..64 goroutines x GOMAXPROCS 1..16 x yields x pool adversary x GC storm) hammers a hot table of ~450 operations over 8 secrets in its own -race child; every concurrent result is compared with the reference / called-alone value, retained code strings are re-checked after GCs and further calls, and race reports with a frame of the library are violations (reports inside the harness only mark the run inconclusive). Thorough adds an -asan configuration. Interleavings are explored by stress, not enumerated.",
+  note="Trusted: Go race detector (happens-before; reports only races that occur in the executions produced), reference models. porcupine is not used: the sequential specification is a pure function of the arguments.",
+  design="7/C11"),
+ "C12": dict(
+  technique="runtime invariant monitor: canary-filled backing arrays around every caller slice, deep snapshots of argument structs and package state before/after, address-range aliasing check (thorough: also -race/checkptr and -asan builds)",
+  text="OCRA input fields are carved out of canary arrays in three length/capacity shapes and the full backing arrays, slice headers and suite are compared after OCRAInput.Validate / GenerateOCRA / ValidateOCRA; Param pointers, parsed URLs and returned URLParam/url.URL/SuiteConfig/list values are snapshotted, mutated and re-queried; returned slices are checked pairwise and against arguments for memory overlap; defaults, TimeCounterFunc, hash-name table and the registry (through the hook) are compared with a start snapshot after every batch.",
+  design="7/C12"),
  "C13": dict(
   technique="runtime invariant monitor on every (ok, err) pair and error text produced by the validation workloads and by failing calls of the other operations",
   text="The (ok, err) pair of every ValidateHOTP/TOTP/OCRA execution of reduced C03/C04/C06 workloads plus an explicit failure-cause sweep must be (true,nil) or (false,error); each error text (all Unwrap levels) is scanned for the secret in every spelling/raw/hex form and for any code of the acceptance window (keys >= 10 bytes, codes >= 6 digits so coincidences are excluded).",
